@@ -1,36 +1,80 @@
+#[macro_use]
+mod util;
 mod l1;
 mod l2;
 mod l3;
-mod util;
+mod l4;
+
+/// runs one case line; its log ends up in this thread's output buffer.  A panic that escapes a case (e.g. a debug
+/// assertion inside a handler callback) ends that case only.
+fn run_line(line: &str) {
+    let kind = line.split(' ').next().map(|s| s.to_string());
+    let r = std::panic::catch_unwind(std::panic::AssertUnwindSafe(|| match kind.as_deref() {
+        Some("L1") => l1::run_case(line),
+        Some("L2") => l2::run_case(line),
+        Some("L3") => l3::run_case(line),
+        Some("TD") => l3::run_td_case(line),
+        _ => {}
+    }));
+    if let Err(p) = r {
+        let msg = p.downcast_ref::<String>().cloned().or_else(|| p.downcast_ref::<&str>().map(|s| s.to_string())).unwrap_or_default();
+        outln!("R 999 panic:impl {}", msg.replace('\n', " "));
+        outln!("X c13-bad the implementation panicked: {}", msg.replace('\n', " "));
+        outln!(".");
+    }
+}
 
 fn main() {
     std::panic::set_hook(Box::new(|_| {}));
     let mode = std::env::args().nth(1).unwrap_or_default();
+    use std::io::BufRead;
     match mode.as_str() {
+        // every case on the main thread, one after the other
         "cases" => {
-            use std::io::BufRead;
             let stdin = std::io::stdin();
             for line in stdin.lock().lines() {
-                let line = line.unwrap();
-                let mut it = line.split(' ');
-                // a panic that escapes a case (e.g. a debug assertion inside a handler callback) ends that case only
-                let kind = it.next().map(|s| s.to_string());
-                let r = std::panic::catch_unwind(std::panic::AssertUnwindSafe(|| match kind.as_deref() {
-                    Some("L1") => l1::run_case(&line),
-                    Some("L2") => l2::run_case(&line),
-                    Some("L3") => l3::run_case(&line),
-                    Some("TD") => l3::run_td_case(&line),
-                    _ => {}
-                }));
-                if let Err(p) = r {
-                    let msg = p.downcast_ref::<String>().cloned().or_else(|| p.downcast_ref::<&str>().map(|s| s.to_string())).unwrap_or_default();
-                    println!("R 999 panic:impl {}", msg.replace('\n', " "));
-                    println!("X c13-bad the implementation panicked: {}", msg.replace('\n', " "));
-                    println!(".");
+                run_line(&line.unwrap());
+                print!("{}", util::take_out());
+            }
+        }
+        // the same cases spread over N worker threads that run concurrently (each worker takes the next unclaimed case);
+        // logs are printed in input order, so the output is comparable line by line with the sequential run
+        "threads" => {
+            let n: usize = std::env::args().nth(2).and_then(|v| v.parse().ok()).unwrap_or(8);
+            let lines: Vec<String> = std::io::stdin().lock().lines().map(|l| l.unwrap()).collect();
+            let next = std::sync::atomic::AtomicUsize::new(0);
+            let results: Vec<std::sync::Mutex<String>> = lines.iter().map(|_| std::sync::Mutex::new(String::new())).collect();
+            std::thread::scope(|s| {
+                for _ in 0..n {
+                    s.spawn(|| loop {
+                        let i = next.fetch_add(1, std::sync::atomic::Ordering::SeqCst);
+                        if i >= lines.len() { break; }
+                        run_line(&lines[i]);
+                        *results[i].lock().unwrap() = util::take_out();
+                        std::thread::yield_now();
+                    });
                 }
+            });
+            for r in &results { print!("{}", r.lock().unwrap()); }
+        }
+        // every case on its own fresh thread (no instance ever shares a thread with an earlier one)
+        "fresh" => {
+            for line in std::io::stdin().lock().lines() {
+                let line = line.unwrap();
+                let out = std::thread::spawn(move || { run_line(&line); util::take_out() }).join().unwrap_or_default();
+                print!("{out}");
+            }
+        }
+        // C18: every case line (its ops= and memory settings) drives a send::HtmlRewriter with and without thread migration
+        "migrate" => {
+            for line in std::io::stdin().lock().lines() {
+                let line = line.unwrap();
+                let r = std::panic::catch_unwind(|| l4::run_case(&line));
+                if r.is_err() { outln!("X c18-bad harness panic"); outln!("."); }
+                print!("{}", util::take_out());
             }
         }
         "itemsize" => println!("{}", l2::stack_item_size()),
-        _ => eprintln!("usage: harness cases < casefile | harness itemsize"),
+        _ => eprintln!("usage: harness cases|threads N|fresh < casefile | harness itemsize"),
     }
 }
